@@ -56,6 +56,11 @@ def acc_leaf() -> Dict[str, Any]:
     return {"leaf": ["int", "A", ACC_SLOT], "_src": "acc"}
 
 
+def cond_leaf(t, a, b) -> Dict[str, Any]:
+    """the value of `a if t else b` as an operand of a larger lambda body (the translator's `if_else_result`)"""
+    return {"leaf": ["double", "R", IF_SLOT], "_src": f"({src(a)} if {src(t)} else {src(b)})"}
+
+
 def int_lit(n: int) -> Dict[str, Any]:
     return {"int": n}
 
@@ -236,7 +241,10 @@ def form_src(form: Dict[str, Any], level: str) -> str:
                 return 'lambda e: e.Jets("J").Count()'
             return f'lambda e: e.Jets("J").Select(lambda j: {src(form["_value"])}).{sc}()'
         u = form["upd"]
-        ub = src(u["plain"]) if "plain" in u else f'({src(u["cond"][1])} if {src(u["cond"][0])} else {src(u["cond"][2])})'
+        if "condIn" in u:
+            ub = src(u["condIn"][3])  # the body; its conditional operand renders as the conditional's source
+        else:
+            ub = src(u["plain"]) if "plain" in u else f'({src(u["cond"][1])} if {src(u["cond"][0])} else {src(u["cond"][2])})'
         return f'lambda e: e.Jets("J").Aggregate({src(form["seed"])}, lambda acc, j: {ub})'
     if level == "jet":
         return f'lambda e: e.Jets("J").Select(lambda j: {body})'
@@ -271,6 +279,11 @@ def form_key(form: Dict[str, Any], level: str) -> str:
     if "_rowquery" in form:
         return f"{level}:{form['_rowquery']}#c{form['_col']}"
     return f"{level}:{form_src(form, level)}"
+
+
+def form_agg_cond_in(seed, t, a, b, body_of) -> Dict[str, Any]:
+    """Aggregate(seed, lambda acc, j: body) where body = body_of(R) contains the conditional `a if t else b` as operand R"""
+    return form_agg(seed, {"condIn": [t, a, b, body_of(cond_leaf(t, a, b))]})
 
 
 def shortcut_form(sc: str, k: Optional[str]) -> Dict[str, Any]:
